@@ -417,20 +417,31 @@ def _make_fields_iterator(
             f.name for f in dataclasses.fields(tp) if not f.name.startswith("_")
         ]
     # Otherwise, try using the public type-hints.
+    #   (Not the parameters of the constructor: they need not be attributes.)
     else:
-        attribs = inspection.get_type_hints(tp)
+        attribs = inspection.get_type_hints(tp, exhaustive=False)
         # (A `ClassVar` annotation is not a field.)
         public_attribs = [
             k
             for k, hint in attribs.items()
             if not k.startswith("_") and not inspection.isclassvartype(hint)
         ]
-    # If that didn't work, look for `__slots__`.
-    if not public_attribs and hasattr(tp, "__slots__"):
-        public_attribs = [s for s in tp.__slots__ if not s.startswith("_")]
+    # If that didn't work, look for `__slots__`:
+    #   every class of the hierarchy declares its own, a lone string is one name.
+    slotted = False
+    if not public_attribs:
+        declared = [
+            vars(base)["__slots__"]
+            for base in reversed(tp.__mro__)
+            if "__slots__" in vars(base)
+        ]
+        slotted = bool(declared) and not tp.__dictoffset__
+        names = [n for d in declared for n in ((d,) if isinstance(d, str) else d)]
+        public_attribs = [s for s in dict.fromkeys(names) if not s.startswith("_")]
     # If we located all public attributes, create a factory function for iterating over
     #   these fields and fetching the value from an instance.
-    if public_attribs:
+    #   (Instances without a `__dict__` have nothing else to offer, even if that is nothing.)
+    if public_attribs or slotted:
 
         def _iterfields(val: t.Any) -> t.Iterator[tuple[str, t.Any]]:
             return ((a, getattr(val, a)) for a in public_attribs)
